@@ -44,6 +44,8 @@ impl<'b, T: Write + 'b> Session<'b, T> {
 
         rustc_span::create_session_if_not_set_then(self.config.edition().into(), |_| {
             if self.config.disable_all_formatting() {
+                #[cfg(rustfmt_verif)]
+                crate::verif::ev("Disabled");
                 // When the input is from stdin, echo back the input.
                 return match input {
                     Input::Text(ref buf) => echo_back_stdin(buf),
@@ -173,6 +175,8 @@ fn format_project<T: FormatHandler>(
 
     for (path, module) in files {
         if input_is_stdin && contains_skip(module.attrs()) {
+            #[cfg(rustfmt_verif)]
+            crate::verif::ev_path("Filtered", &path, "stdin-skip");
             return echo_back_stdin(context.psess.snippet_provider(module.span).entire_snippet());
         }
         should_emit_verbose(input_is_stdin, config, || println!("Formatting {}", path));
